@@ -105,6 +105,52 @@ Proof.
   inversion H; subst. rewrite heights_sqrt_all. apply sorted_map_rt. eapply relabel_sorted. eassumption.
 Qed.
 
+(* the same when the post-pass is monotone only between values whose images satisfy P
+   (IEEE sqrt: P = "is not NaN" - the root of a negative squared height is NaN) *)
+Section On.
+Variable P : T -> Prop.
+Hypothesis rt_mono_on : forall x y, P (k_rt K x) -> P (k_rt K y) -> le_t x y -> le_t (k_rt K x) (k_rt K y).
+
+Lemma sorted_map_rt_on (l : list T) : Sorted le_t l -> Forall P (map (k_rt K) l) -> Sorted le_t (map (k_rt K) l).
+Proof.
+  induction 1 as [|x l Hs IH Hd]; cbn [map]; intros HP; constructor.
+  - apply IH. inversion HP; assumption.
+  - destruct Hd as [|y l Hxy]; cbn [map]; constructor. inversion HP as [|? ? Px HP']; subst. inversion HP'; subst.
+    apply rt_mono_on; assumption.
+Qed.
+
+Theorem primitive_monotone_on meth s d m n s' d' m' :
+  requires_sorting meth = true ->
+  primitive_with K p meth s d m n = Ok (s', d', m') -> Forall P (heights d') -> Sorted le_t (heights d').
+Proof.
+  intros Hs H. unfold primitive_with in H. bind_inv H.
+  destruct (m_obs a =? 0); [inversion H; subst; intros _; apply empty_sorted; reflexivity|].
+  bind_inv H. destruct a0 as [[s1 d1] M1]. rewrite Hs in H. bind_inv H. destruct a0 as [u d2].
+  inversion H; subst. rewrite heights_sqrt_all. apply sorted_map_rt_on. eapply relabel_sorted. eassumption.
+Qed.
+
+Theorem nnchain_monotone_on meth s d m n s' d' m' :
+  requires_sorting meth = true ->
+  nnchain_with K p meth s d m n = Ok (s', d', m') -> Forall P (heights d') -> Sorted le_t (heights d').
+Proof.
+  intros Hs H. unfold nnchain_with in H. bind_inv H.
+  destruct (m_obs a =? 0); [inversion H; subst; intros _; apply empty_sorted; reflexivity|].
+  bind_inv H. destruct a0 as [[s1 d1] M1]. rewrite Hs in H. bind_inv H. destruct a0 as [u d2].
+  inversion H; subst. rewrite heights_sqrt_all. apply sorted_map_rt_on. eapply relabel_sorted. eassumption.
+Qed.
+
+Theorem generic_monotone_on meth s d m n s' d' m' :
+  requires_sorting meth = true ->
+  generic_with K p meth s d m n = Ok (s', d', m') -> Forall P (heights d') -> Sorted le_t (heights d').
+Proof.
+  intros Hs H. unfold generic_with in H. bind_inv H.
+  destruct (m_obs a =? 0); [inversion H; subst; intros _; apply empty_sorted; reflexivity|].
+  bind_inv H. destruct a0 as [dists nearest]. bind_inv H. bind_inv H. destruct a1 as [[s2 d1] M1].
+  rewrite Hs in H. bind_inv H. destruct a1 as [u d2].
+  inversion H; subst. rewrite heights_sqrt_all. apply sorted_map_rt_on. eapply relabel_sorted. eassumption.
+Qed.
+End On.
+
 (* centroid and median: emitted in merge order - relabel does not sort *)
 Theorem unsorted_methods_keep_order (u u' : ufind) (d d' : dend T) :
   relabel ltb eqb u d false = Ok (u', d') -> heights d' = heights d.
